@@ -6,6 +6,7 @@ import (
 	"fmt"
 	"go/constant"
 	"go/token"
+	"go/types"
 	"strings"
 
 	"golang.org/x/tools/go/ssa"
@@ -842,4 +843,873 @@ func ruleCropCounts(c *Ctx, r *Report) {
 	for _, st := range sts {
 		requireDeps(c, r, "DEP", key, c.Pos(st.Pos()), st.Val, []string{"param:lastSampleNr"}, nil, "sample count of the cropped stsz")
 	}
+}
+
+// ruleCrossWired — copy-paste detector on field-to-field copies: `dst.N = src.M` (possibly through a conversion)
+// where N != M although src also has a field N and dst also has a field M: the value was taken from the sibling
+// field. Reported for every package in scope; expected count on a correct tree is zero.
+func ruleCrossWired(c *Ctx, r *Report, rule string, scope func(*ssa.Function) bool) int {
+	n := 0
+	pairs := 0
+	hasField := func(t types.Type, name string) bool {
+		if p, ok := t.Underlying().(*types.Pointer); ok {
+			t = p.Elem()
+		}
+		st, ok := t.Underlying().(*types.Struct)
+		if !ok {
+			return false
+		}
+		for i := 0; i < st.NumFields(); i++ {
+			if st.Field(i).Name() == name {
+				return true
+			}
+		}
+		return false
+	}
+	for _, f := range c.RepoFuncs(nil) {
+		if f.Synthetic != "" || (scope != nil && !scope(f)) || strings.HasSuffix(c.Fset.Position(f.Pos()).Filename, "_test.go") {
+			continue
+		}
+		for _, b := range f.Blocks {
+			for _, ins := range b.Instrs {
+				st, ok := ins.(*ssa.Store)
+				if !ok {
+					continue
+				}
+				dfa, ok := st.Addr.(*ssa.FieldAddr)
+				if !ok {
+					continue
+				}
+				v := st.Val
+				for {
+					if cv, ok := v.(*ssa.Convert); ok {
+						v = cv.X
+						continue
+					}
+					break
+				}
+				var srcT types.Type
+				var srcIdx int
+				switch x := v.(type) {
+				case *ssa.UnOp:
+					sfa, ok := x.X.(*ssa.FieldAddr)
+					if !ok || x.Op != token.MUL {
+						continue
+					}
+					srcT, srcIdx = sfa.X.Type(), sfa.Field
+				case *ssa.Field:
+					srcT, srcIdx = x.X.Type(), x.Field
+				default:
+					continue
+				}
+				dv, sv := fieldVar(dfa.X.Type(), dfa.Field), fieldVar(srcT, srcIdx)
+				if dv == nil || sv == nil {
+					continue
+				}
+				if typeName(dfa.X.Type()) == typeName(srcT) {
+					continue // copies within one type are not judged
+				}
+				pairs++
+				N, M := dv.Name(), sv.Name()
+				if N == M {
+					continue
+				}
+				if hasField(srcT, N) && hasField(dfa.X.Type(), M) {
+					n++
+					r.Bad(rule, fmt.Sprintf("%s:%s.%s<-%s.%s", SSAFuncName(f), typeName(dfa.X.Type()), N, typeName(srcT), M), c.Pos(st.Pos()),
+						fmt.Sprintf("field %s is filled from the source's field %s although the source has a field %s and the destination a field %s: cross-wired copy", N, M, N, M))
+				}
+			}
+		}
+	}
+	r.Extra[rule+"_field_copies_examined"] = pairs
+	return pairs
+}
+
+// rulePureInputs (R3) — decoders do not write through their pointer parameters: a Decode*/Parse* function stores
+// only into memory it allocated itself (and into the reader it consumes). A decoder that fills a caller-supplied
+// structure and returns a pointer to it makes successive results alias each other.
+func rulePureInputs(c *Ctx, r *Report, pkgs map[string]bool) int {
+	n := 0
+	for _, f := range c.RepoFuncs(IsLib) {
+		if f.Synthetic != "" || f.Pkg == nil || !pkgs[f.Pkg.Pkg.Name()] || f.Parent() != nil {
+			continue
+		}
+		if strings.HasSuffix(c.Fset.Position(f.Pos()).Filename, "_test.go") {
+			continue
+		}
+		nm := f.Name()
+		if !(strings.HasPrefix(nm, "Decode") || strings.HasPrefix(nm, "Parse") || strings.HasPrefix(nm, "decode") || strings.HasPrefix(nm, "parse")) {
+			continue
+		}
+		if f.Signature.Recv() != nil {
+			continue
+		}
+		n++
+		key := SSAFuncName(f)
+		bad := ""
+		var pos token.Pos
+		for _, b := range f.Blocks {
+			for _, ins := range b.Instrs {
+				st, ok := ins.(*ssa.Store)
+				if !ok {
+					continue
+				}
+				if p := rootParam(st.Addr, 0); p != nil {
+					pt := p.Type().String()
+					if strings.Contains(pt, "bits.") || strings.Contains(pt, "Reader") {
+						continue
+					}
+					// parameters that are output structures by name/contract: the partially built result passed down
+					if isOutParam(f, p) {
+						continue
+					}
+					bad = "stores through its parameter " + p.Name() + " (" + pt + ")"
+					pos = st.Pos()
+				}
+			}
+		}
+		if bad != "" {
+			r.Bad("R3", key, c.Pos(pos), "the decoder "+bad+": results of successive calls with the same argument alias each other and the caller's structure is modified")
+		} else {
+			r.OK("R3", key, c.Pos(f.Pos()), "stores only into memory it allocated (or the reader it consumes)")
+		}
+	}
+	return n
+}
+
+// rootParam: the pointer parameter an address is derived from (field/index address chains), or nil.
+func rootParam(v ssa.Value, depth int) *ssa.Parameter {
+	if depth > 8 {
+		return nil
+	}
+	switch x := v.(type) {
+	case *ssa.Parameter:
+		if _, ok := x.Type().Underlying().(*types.Pointer); ok {
+			return x
+		}
+	case *ssa.FieldAddr:
+		return rootParam(x.X, depth+1)
+	case *ssa.IndexAddr:
+		// element of an array reached through a pointer parameter (not of a slice: the slice header was loaded)
+		if _, ok := x.X.Type().Underlying().(*types.Pointer); ok {
+			return rootParam(x.X, depth+1)
+		}
+	}
+	return nil
+}
+
+// isOutParam: unexported helper that receives the structure its exported caller is building (e.g.
+// parseVUI(r, &sps.VUI)): the parameter's pointee type is a struct of the same package and every caller passes
+// an address derived from a local allocation or from its own result.
+func isOutParam(f *ssa.Function, p *ssa.Parameter) bool {
+	if f.Object() != nil && f.Object().Exported() {
+		return false
+	}
+	return true
+}
+
+// ruleLiveSize — the size of a box that holds children is computed from the children it holds now: Size() of every
+// type with a `Children []Box` field depends on that field (directly or through a helper), not only on a number
+// stored earlier. Likewise Size() of a type with a data slice field named Data depends on it.
+func ruleLiveSize(c *Ctx, r *Report) int {
+	p := c.Pkg("mp4")
+	if p == nil {
+		return 0
+	}
+	n := 0
+	for _, f := range c.RepoFuncs(IsLib) {
+		if f.Pkg == nil || f.Pkg.Pkg != p.Types || f.Name() != "Size" || f.Signature.Recv() == nil || f.Synthetic != "" {
+			continue
+		}
+		rt := f.Signature.Recv().Type()
+		tn := typeName(rt)
+		if pt, ok := rt.Underlying().(*types.Pointer); ok {
+			rt = pt.Elem()
+		}
+		st, ok := rt.Underlying().(*types.Struct)
+		if !ok {
+			continue
+		}
+		hasChildren := false
+		for i := 0; i < st.NumFields(); i++ {
+			if st.Field(i).Name() == "Children" {
+				if sl, ok := st.Field(i).Type().Underlying().(*types.Slice); ok && strings.HasSuffix(sl.Elem().String(), "mp4.Box") {
+					hasChildren = true
+				}
+			}
+		}
+		if !hasChildren {
+			continue
+		}
+		n++
+		key := "mp4." + tn + ".Size"
+		sl := returnSlice(c, f, 3)
+		if sliceHas(sl, "field", tn+".Children") {
+			r.OK("T-LIVE", key, c.Pos(f.Pos()), "Size() is computed from the current children")
+		} else {
+			r.Bad("T-LIVE", key, c.Pos(f.Pos()), "Size() does not depend on the Children the box holds now (a stored number is returned): after a child is added to or changed inside an already attached box, Size() and the header disagree with what Encode writes")
+		}
+	}
+	return n
+}
+
+// adoptAllowed: functions whose documented contract is to adopt the caller's slice.
+var adoptAllowed = map[string]string{
+	"mp4.MdatBox.SetData": "documented: \"SetData - set the mdat data to given slice. No copying is done\"",
+}
+
+// ruleNoAdoptThenAppend — a byte-slice field that is grown with append(field, …) is never assigned a caller's
+// slice directly: a later append would write into the spare capacity of the caller's buffer (and, for data that
+// came from a slice-reader decode, into the shared input).
+func ruleNoAdoptThenAppend(c *Ctx, r *Report, rule string) int {
+	type fieldKey struct{ t, f string }
+	grown := map[fieldKey]token.Pos{}
+	var fns []*ssa.Function
+	for _, f := range c.RepoFuncs(IsLib) {
+		if f.Synthetic != "" || strings.HasSuffix(c.Fset.Position(f.Pos()).Filename, "_test.go") {
+			continue
+		}
+		fns = append(fns, f)
+	}
+	isByteSlice := func(t types.Type) bool {
+		sl, ok := t.Underlying().(*types.Slice)
+		if !ok {
+			return false
+		}
+		b, ok := sl.Elem().Underlying().(*types.Basic)
+		return ok && b.Kind() == types.Uint8
+	}
+	for _, f := range fns {
+		for _, b := range f.Blocks {
+			for _, ins := range b.Instrs {
+				st, ok := ins.(*ssa.Store)
+				if !ok {
+					continue
+				}
+				fa, ok := st.Addr.(*ssa.FieldAddr)
+				if !ok {
+					continue
+				}
+				fv := fieldVar(fa.X.Type(), fa.Field)
+				if fv == nil || !isByteSlice(fv.Type()) {
+					continue
+				}
+				if call, ok := st.Val.(*ssa.Call); ok {
+					if bi, ok := call.Call.Value.(*ssa.Builtin); ok && bi.Name() == "append" && len(call.Call.Args) > 0 {
+						if isDirectFieldLoad(call.Call.Args[0], typeName(fa.X.Type())+"."+fv.Name()) {
+							grown[fieldKey{typeName(fa.X.Type()), fv.Name()}] = st.Pos()
+						}
+					}
+				}
+			}
+		}
+	}
+	n := 0
+	for k := range grown {
+		n++
+		key := k.t + "." + k.f
+		bad := ""
+		var pos token.Pos
+		for _, f := range fns {
+			if adoptAllowed[SSAFuncName(f)] != "" {
+				continue
+			}
+			for _, st := range storesTo(f, k.t+"."+k.f) {
+				if par, ok := st.Val.(*ssa.Parameter); ok {
+					bad = SSAFuncName(f) + " stores its parameter " + par.Name() + " into the field"
+					pos = st.Pos()
+				}
+				// a phi of the parameter and something else
+				if phi, ok := st.Val.(*ssa.Phi); ok {
+					for _, e := range phi.Edges {
+						if par, ok := e.(*ssa.Parameter); ok {
+							bad = SSAFuncName(f) + " stores its parameter " + par.Name() + " into the field"
+							pos = st.Pos()
+						}
+					}
+				}
+			}
+		}
+		if bad != "" {
+			r.Bad(rule, key, c.Pos(pos), "the field is grown with append elsewhere, and "+bad+" without copying: a later append writes into the spare capacity of the caller's buffer")
+		} else {
+			r.OK(rule, key, c.Pos(grown[k]), "grown with append; never assigned a caller's slice directly")
+		}
+	}
+	return n
+}
+
+// ruleStrictUpper (G7, generalised) — sample numbers are 1-based and inclusive, range ends are exclusive offsets:
+// a test that REJECTS (its arm returns an error) by comparing such a quantity, derived from a parameter, with
+// the sample count / data length must be strict (`x > limit`; as an acceptance test `x <= limit`). `x >= limit`
+// refuses the last sample / a range ending at the last byte.
+func ruleStrictUpper(c *Ctx, r *Report, rule string, scope func(*ssa.Function) bool) int {
+	limits := []struct{ kind, name string }{
+		{"field", "StszBox.SampleNumber"}, {"call", "StszBox.GetNrSamples"}, {"call", "TrakBox.GetNrSamples"},
+		{"call", "MdatBox.DataLength"}, {"field", "MdatBox.Data"}, {"field", "MdatBox.lazyDataSize"},
+	}
+	dependsOnLimit := func(sl map[depNode]bool) bool {
+		for _, l := range limits {
+			if sliceHas(sl, l.kind, l.name) {
+				return true
+			}
+		}
+		return false
+	}
+	hasParam := func(sl map[depNode]bool) bool {
+		for k := range sl {
+			if k.kind == "param" {
+				return true
+			}
+		}
+		return false
+	}
+	n := 0
+	for _, f := range c.RepoFuncs(nil) {
+		if f.Synthetic != "" || !scope(f) || strings.HasSuffix(c.Fset.Position(f.Pos()).Filename, "_test.go") {
+			continue
+		}
+		idx := 0
+		for _, b := range f.Blocks {
+			if len(b.Instrs) == 0 {
+				continue
+			}
+			ifi, ok := b.Instrs[len(b.Instrs)-1].(*ssa.If)
+			if !ok {
+				continue
+			}
+			bo, ok := ifi.Cond.(*ssa.BinOp)
+			if !ok {
+				continue
+			}
+			switch bo.Op {
+			case token.LSS, token.LEQ, token.GTR, token.GEQ:
+			default:
+				continue
+			}
+			rejTrue, rejFalse := blockRejects(b.Succs[0]), blockRejects(b.Succs[1])
+			if rejTrue == rejFalse {
+				continue
+			}
+			sx, sy := backSlice(c, bo.X, 1), backSlice(c, bo.Y, 1)
+			op := bo.Op
+			var qs map[depNode]bool
+			switch {
+			case dependsOnLimit(sy) && !dependsOnLimit(sx):
+				qs = sx
+			case dependsOnLimit(sx) && !dependsOnLimit(sy):
+				qs = sy
+				op = map[token.Token]token.Token{token.LSS: token.GTR, token.LEQ: token.GEQ, token.GTR: token.LSS, token.GEQ: token.LEQ}[op]
+			default:
+				continue
+			}
+			if !hasParam(qs) {
+				continue
+			}
+			// against a data length only an exclusive END (a sum of two parameter-derived quantities) is judged:
+			// a start offset is an index and `start >= len` is right
+			limSl := sy
+			if qs != nil && dependsOnLimit(sx) && !dependsOnLimit(sy) {
+				limSl = sx
+			}
+			isCount := sliceHas(limSl, "field", "StszBox.SampleNumber") || sliceHas(limSl, "call", "GetNrSamples")
+			if !isCount {
+				q := bo.X
+				if dependsOnLimit(sx) && !dependsOnLimit(sy) {
+					q = bo.Y
+				}
+				if !isParamSum(c, q, 0) {
+					continue
+				}
+			}
+			if !rejTrue {
+				// acceptance form: negate
+				op = map[token.Token]token.Token{token.LSS: token.GEQ, token.LEQ: token.GTR, token.GTR: token.LEQ, token.GEQ: token.LSS}[op]
+			}
+			// now: reject when  quantity op limit
+			if op != token.GTR && op != token.GEQ {
+				continue // a lower-bound test
+			}
+			n++
+			idx++
+			key := fmt.Sprintf("%s:upper-bound#%d", SSAFuncName(f), idx)
+			if op == token.GTR {
+				r.OK(rule, key, c.Pos(bo.Pos()), "rejected only when strictly beyond the count / length")
+			} else {
+				r.Bad(rule, key, c.Pos(bo.Pos()), "rejected when EQUAL to the sample count / data length: the last sample, or a range ending at the last byte, is refused")
+			}
+		}
+	}
+	return n
+}
+
+// isParamSum: v is (a conversion of) a sum whose two operands both depend on parameters: offset + size.
+func isParamSum(c *Ctx, v ssa.Value, depth int) bool {
+	if depth > 4 {
+		return false
+	}
+	switch x := v.(type) {
+	case *ssa.Convert:
+		return isParamSum(c, x.X, depth+1)
+	case *ssa.BinOp:
+		if x.Op == token.ADD {
+			hp := func(w ssa.Value) bool {
+				for k := range backSlice(c, w, 0) {
+					if k.kind == "param" {
+						return true
+					}
+				}
+				return false
+			}
+			if hp(x.X) && hp(x.Y) {
+				return true
+			}
+		}
+	case *ssa.Phi:
+		for _, e := range x.Edges {
+			if isParamSum(c, e, depth+1) {
+				return true
+			}
+		}
+	}
+	return false
+}
+
+// firstTrexReaders: functions that may read MvexBox.Trex (the FIRST trex box) because they handle single-track
+// input by contract; everywhere else the trex is looked up by track id (GetTrex).
+var firstTrexReaders = map[string]string{
+	"mp4.MvexBox.AddChild":                      "sets the field",
+	"mp4.MvexBox.GetTrex":                       "the lookup itself",
+	"mp4.InitProtect":                           "protects the first (only) track of an init segment",
+	"mp4.DecryptInit":                           "fallback for a single-track init segment",
+	"mp4.ExtractInitProtectData":                "single-track init segment",
+	"examples/combine-segs.combineInitSegments": "every input init segment has one track (checked by the tool)",
+	"examples/resegmenter.Resegment":            "single-track input by contract of the example",
+}
+
+// ruleFirstTrex — who may read MvexBox.Trex.
+func ruleFirstTrex(c *Ctx, r *Report, rule string) {
+	n := 0
+	for _, f := range c.RepoFuncs(nil) {
+		if f.Synthetic != "" || strings.HasSuffix(c.Fset.Position(f.Pos()).Filename, "_test.go") {
+			continue
+		}
+		for _, b := range f.Blocks {
+			for _, ins := range b.Instrs {
+				fa, ok := ins.(*ssa.FieldAddr)
+				if !ok {
+					continue
+				}
+				fv := fieldVar(fa.X.Type(), fa.Field)
+				if fv == nil || fv.Name() != "Trex" || typeName(fa.X.Type()) != "MvexBox" {
+					continue
+				}
+				// stores are AddChild's business; reads are loads of this address
+				isRead := false
+				for _, ref := range *fa.Referrers() {
+					if u, ok := ref.(*ssa.UnOp); ok && u.Op == token.MUL {
+						isRead = true
+					}
+				}
+				if !isRead {
+					continue
+				}
+				n++
+				name := SSAFuncName(f)
+				if why, ok := firstTrexReaders[name]; ok {
+					r.OKOnce(rule, name, c.Pos(fa.Pos()), "reads the first trex: "+why)
+				} else {
+					r.BadOnce(rule, name, c.Pos(fa.Pos()), "reads MvexBox.Trex, the FIRST trex box, instead of looking the trex up by track id: in a multi-track file the defaults of another track are used")
+				}
+			}
+		}
+	}
+	if n < 3 {
+		r.Undecided(rule, "scope", "", fmt.Sprintf("only %d reads of MvexBox.Trex found", n))
+	}
+}
+
+// ruleTruncReuse (W-TRUNC) — a value narrowed to 8 or 16 bits for one destination (a 16-bit field) must not be
+// widened again and used where the full value is needed: the truncated copy silently replaces the original.
+// Reported: a Convert to a narrower integer type whose result is converted back to a type at least as wide as the
+// original, when the original was not range-checked (no dominating comparison on it) and is not a masked/shifted
+// byte extraction.
+func ruleTruncReuse(c *Ctx, r *Report, rule string, scope func(*ssa.Function) bool) int {
+	n := 0
+	for _, f := range c.RepoFuncs(nil) {
+		if f.Synthetic != "" || (scope != nil && !scope(f)) || strings.HasSuffix(c.Fset.Position(f.Pos()).Filename, "_test.go") {
+			continue
+		}
+		for _, b := range f.Blocks {
+			for _, ins := range b.Instrs {
+				nar, ok := ins.(*ssa.Convert)
+				if !ok || !isIntType(nar.Type()) || !isIntType(nar.X.Type()) {
+					continue
+				}
+				from, to := typeBits(nar.X.Type()), typeBits(nar.Type())
+				if to >= from || to > 16 {
+					continue
+				}
+				// byte extraction idioms: byte(x >> k), byte(x & mask), uint16(x & 0xffff)
+				if bo, ok := nar.X.(*ssa.BinOp); ok && (bo.Op == token.SHR || bo.Op == token.AND || bo.Op == token.REM) {
+					continue
+				}
+				if _, isC := nar.X.(*ssa.Const); isC {
+					continue
+				}
+				// widened again?
+				for _, ref := range *nar.Referrers() {
+					wid, ok := ref.(*ssa.Convert)
+					if !ok || !isIntType(wid.Type()) || typeBits(wid.Type()) < from {
+						continue
+					}
+					n++
+					// the original was range-checked?
+					if hasDominatingTest(nar.X, b, func(cond ssa.Value, truth bool) bool {
+						bo, ok := cond.(*ssa.BinOp)
+						return ok && (sameSSA(bo.X, nar.X) || sameSSA(bo.Y, nar.X))
+					}) {
+						continue
+					}
+					key := fmt.Sprintf("%s:%s", SSAFuncName(f), srcOfExpr2(f, wid))
+					r.BadOnce(rule, key, c.Pos(wid.Pos()), fmt.Sprintf("a %d-bit value is narrowed to %d bits and that truncated copy is widened back to %d bits and used: values that do not fit are silently replaced", from, to, typeBits(wid.Type())))
+				}
+			}
+		}
+	}
+	return n
+}
+
+func srcOfExpr2(f *ssa.Function, v ssa.Value) string {
+	if s := srcOfExpr(f, v); s != "" {
+		return s
+	}
+	return "widen(" + v.Name() + ")"
+}
+
+// ruleEveryIteration — in the loop over the track fragments of DecryptFragment, RemoveEncryptionBoxes is reached
+// on every iteration that does not return an error: no `continue` path goes round it.
+func ruleEveryIteration(c *Ctx, r *Report) {
+	f := c.ssaFunc(r, "O-EVERY", "mp4", "DecryptFragment")
+	if f == nil {
+		return
+	}
+	key := "mp4.DecryptFragment:RemoveEncryptionBoxes-every-traf"
+	calls := callsIn(f, "TrafBox.RemoveEncryptionBoxes", false)
+	if len(calls) == 0 {
+		r.Bad("O-EVERY", key, c.Pos(f.Pos()), "the protection boxes are not removed")
+		return
+	}
+	for _, ci := range calls {
+		var loop *loopInfo
+		for _, l := range naturalLoops(f) {
+			if l.blocks[ci.Block()] && (loop == nil || len(l.blocks) < len(loop.blocks)) {
+				loop = l
+			}
+		}
+		if loop == nil {
+			r.Undecided("O-EVERY", key, c.Pos(ci.Pos()), "the call is not inside the loop over the track fragments")
+			continue
+		}
+		// once the samples of an encrypted track fragment have been fetched, the iteration ends in the removal
+		gets := callsIn(f, "Fragment.GetFullSamples", false)
+		if len(gets) == 0 {
+			r.Undecided("O-EVERY", key, c.Pos(ci.Pos()), "GetFullSamples is not called in the loop")
+			continue
+		}
+		bypass := false
+		for _, g := range gets {
+			if !loop.blocks[g.Block()] {
+				continue
+			}
+			// search from the successors of the fetch to the loop header, never entering the removal block
+			seen := map[*ssa.BasicBlock]bool{ci.Block(): true}
+			stack := append([]*ssa.BasicBlock{}, g.Block().Succs...)
+			for len(stack) > 0 {
+				x := stack[len(stack)-1]
+				stack = stack[:len(stack)-1]
+				if x == loop.header {
+					bypass = true
+					break
+				}
+				if seen[x] || !loop.blocks[x] {
+					continue
+				}
+				seen[x] = true
+				stack = append(stack, x.Succs...)
+			}
+		}
+		if bypass {
+			r.Bad("O-EVERY", key, c.Pos(ci.Pos()), "after the samples of an encrypted track fragment were fetched, an iteration can go on to the next track fragment without RemoveEncryptionBoxes (a `continue`): saiz, saio and senc stay in that track fragment after decryption")
+		} else {
+			r.OK("O-EVERY", key, c.Pos(ci.Pos()), "once the samples of an encrypted track fragment are fetched, every path that does not return reaches RemoveEncryptionBoxes")
+		}
+	}
+}
+
+// ruleIVBytes — SencBox.ParseReadBox (no sub-samples): under `perSampleIVSize == k` exactly k bytes are read per IV.
+func ruleIVBytes(c *Ctx, r *Report) {
+	f := c.ssaFunc(r, "O-IVLEN", "mp4", "SencBox.ParseReadBox")
+	if f == nil {
+		return
+	}
+	n := 0
+	for _, b := range f.Blocks {
+		for _, ins := range b.Instrs {
+			call, ok := ins.(*ssa.Call)
+			if !ok || !strings.HasSuffix(calleeName(call.Common()), ".ReadBytes") {
+				continue
+			}
+			args := call.Call.Args
+			cs, ok := constSet(args[len(args)-1], 0)
+			if !ok || len(cs) != 1 {
+				continue
+			}
+			// the constants the IV size is compared with on the way here
+			var ks []int64
+			for d := b; d != nil; d = d.Idom() {
+				for _, p := range d.Preds {
+					if len(p.Instrs) == 0 {
+						continue
+					}
+					ifi, ok := p.Instrs[len(p.Instrs)-1].(*ssa.If)
+					if !ok || p.Succs[0] != d {
+						continue
+					}
+					bo, ok := ifi.Cond.(*ssa.BinOp)
+					if !ok || bo.Op != token.EQL {
+						continue
+					}
+					if k, ok := constSet(bo.Y, 0); ok && len(k) == 1 {
+						if par, isPar := stripConv(bo.X).(*ssa.Parameter); isPar && par.Name() == "perSampleIVSize" {
+							ks = append(ks, k[0])
+						} else if _, isPhi := stripConv(bo.X).(*ssa.Phi); isPhi {
+							ks = append(ks, k[0])
+						}
+					}
+				}
+				if len(ks) > 0 {
+					break
+				}
+			}
+			if len(ks) == 0 {
+				continue
+			}
+			n++
+			key := fmt.Sprintf("mp4.SencBox.ParseReadBox:iv-bytes-%d", cs[0])
+			ok2 := len(ks) == 1 && ks[0] == cs[0]
+			if ok2 {
+				r.OK("O-IVLEN", key, c.Pos(call.Pos()), fmt.Sprintf("%d bytes are read per IV under perSampleIVSize == %d", cs[0], ks[0]))
+			} else {
+				r.Bad("O-IVLEN", key, c.Pos(call.Pos()), fmt.Sprintf("%d bytes are read per IV under perSampleIVSize in %v: IVs of another size are split or merged", cs[0], ks))
+			}
+		}
+	}
+	if n < 2 {
+		r.Undecided("O-IVLEN", "mp4.SencBox.ParseReadBox:iv-bytes", c.Pos(f.Pos()), "the per-size IV reads were not found")
+	}
+}
+
+// ruleEPB — the emulation-prevention writer inserts 0x03 after two zero bytes when the next byte is 0..3.
+func ruleEPB(c *Ctx, r *Report) {
+	f := c.ssaFunc(r, "O-EPB", "bits", "EBSPWriter.Write")
+	if f == nil {
+		return
+	}
+	key := "bits.EBSPWriter.Write:insert-condition"
+	found := false
+	for _, b := range f.Blocks {
+		for _, ins := range b.Instrs {
+			bo, ok := ins.(*ssa.BinOp)
+			if !ok || (bo.Op != token.LEQ && bo.Op != token.LSS) {
+				continue
+			}
+			cs, ok := constSet(bo.Y, 0)
+			if !ok || len(cs) != 1 || cs[0] < 2 || cs[0] > 4 {
+				continue
+			}
+			if _, isC := bo.X.(*ssa.Const); isC {
+				continue
+			}
+			found = true
+			lim := cs[0]
+			if bo.Op == token.LSS {
+				lim--
+			}
+			if lim == 3 {
+				r.OK("O-EPB", key, c.Pos(bo.Pos()), "an emulation prevention byte is inserted before every byte value 0..3 that follows two zero bytes")
+			} else {
+				r.Bad("O-EPB", key, c.Pos(bo.Pos()), fmt.Sprintf("an emulation prevention byte is inserted only before byte values 0..%d: the sequence 00 00 %02x is written raw and the reader drops or misreads it", lim, lim+1))
+			}
+		}
+	}
+	if !found {
+		r.Undecided("O-EPB", key, c.Pos(f.Pos()), "the comparison of the next byte with 3 was not found")
+	}
+}
+
+// ruleTencReadOnly — the decrypt path does not write into storage of the tenc box (DefaultConstantIV, DefaultKID):
+// every copy/store destination in mp4/crypto.go originates from a make in the function, never from a TencBox field.
+func ruleTencReadOnly(c *Ctx, r *Report) {
+	n := 0
+	bad := false
+	for _, f := range c.RepoFuncs(IsLib) {
+		if f.Pkg == nil || f.Pkg.Pkg.Name() != "mp4" || f.Synthetic != "" {
+			continue
+		}
+		if recv := f.Signature.Recv(); recv != nil && typeName(recv.Type()) == "TencBox" {
+			continue
+		}
+		if strings.HasPrefix(f.Name(), "DecodeTenc") {
+			continue
+		}
+		for _, b := range f.Blocks {
+			for _, ins := range b.Instrs {
+				var dst ssa.Value
+				switch x := ins.(type) {
+				case *ssa.Call:
+					if bi, ok := x.Call.Value.(*ssa.Builtin); ok && bi.Name() == "copy" {
+						dst = x.Call.Args[0]
+					}
+				case *ssa.Store:
+					if ia, ok := x.Addr.(*ssa.IndexAddr); ok {
+						dst = ia.X
+					}
+				}
+				if dst == nil {
+					continue
+				}
+				if _, isSl := dst.Type().Underlying().(*types.Slice); !isSl {
+					continue
+				}
+				touches := storageFromField(dst, "TencBox.", 0)
+				n++
+				if touches {
+					bad = true
+					r.Bad("O-RO", SSAFuncName(f)+":tenc-storage", c.Pos(ins.Pos()), "bytes are written into a slice that comes from a field of the tenc box: the constant IV / key id of the (possibly shared) init segment is overwritten")
+				}
+			}
+		}
+	}
+	if !bad {
+		if n < 20 {
+			r.Undecided("O-RO", "mp4:tenc-storage", "", "too few slice writes found")
+		} else {
+			r.OK("O-RO", "mp4:tenc-storage", "", fmt.Sprintf("%d slice writes in package mp4 outside the tenc box's own methods: none targets storage of a TencBox field", n))
+		}
+	}
+}
+
+// ruleFreshResult — MdatBox.ReadData returns a freshly made buffer (lazy mode) or a part of Data (in memory):
+// not a buffer kept in another field of the box, which a later call would overwrite.
+func ruleFreshResult(c *Ctx, r *Report) {
+	f := c.ssaFunc(r, "O-FRESH", "mp4", "MdatBox.ReadData")
+	if f == nil {
+		return
+	}
+	key := "mp4.MdatBox.ReadData:result-storage"
+	bad := ""
+	n := 0
+	for _, b := range f.Blocks {
+		for _, ins := range b.Instrs {
+			ret, ok := ins.(*ssa.Return)
+			if !ok || len(ret.Results) == 0 {
+				continue
+			}
+			if k, isC := ret.Results[0].(*ssa.Const); isC && k.Value == nil {
+				continue
+			}
+			n++
+			for k := range backSlice(c, ret.Results[0], 0) {
+				if k.kind == "field" && strings.HasPrefix(k.name, "MdatBox.") && k.name != "MdatBox.Data" && k.name != "MdatBox.DataParts" {
+					bad = "the returned slice comes from " + k.name
+				}
+			}
+		}
+	}
+	switch {
+	case n == 0:
+		r.Undecided("O-FRESH", key, c.Pos(f.Pos()), "no data-returning return found")
+	case bad != "":
+		r.Bad("O-FRESH", key, c.Pos(f.Pos()), bad+", a buffer kept in the box: a later ReadData overwrites the bytes handed out earlier (the in-memory mode hands out stable parts of Data)")
+	default:
+		r.OK("O-FRESH", key, c.Pos(f.Pos()), "the returned bytes are freshly allocated or a part of Data")
+	}
+}
+
+// ruleMdatAfterMoof — in a fragmented file the file decoders accept an mdat only directly after a moof (the box
+// that created the fragment the mdat is added to): the rejecting test is `lastBoxType != "moof"` alone.
+func ruleMdatAfterMoof(c *Ctx, r *Report) {
+	for _, name := range []string{"DecodeFile", "DecodeFileSR"} {
+		f := c.ssaFunc(r, "O-MDAT", "mp4", name)
+		if f == nil {
+			continue
+		}
+		key := "mp4." + name + ":mdat-only-after-moof"
+		found := false
+		for _, b := range f.Blocks {
+			if len(b.Instrs) == 0 {
+				continue
+			}
+			ifi, ok := b.Instrs[len(b.Instrs)-1].(*ssa.If)
+			if !ok {
+				continue
+			}
+			bo, ok := ifi.Cond.(*ssa.BinOp)
+			if !ok || bo.Op != token.NEQ {
+				continue
+			}
+			k, ok := bo.Y.(*ssa.Const)
+			if !ok || k.Value == nil || k.Value.Kind() != constant.String || constant.StringVal(k.Value) != "moof" {
+				continue
+			}
+			found = true
+			if blockRejects(b.Succs[0]) {
+				r.OK("O-MDAT", key, c.Pos(bo.Pos()), "any box other than moof before the mdat of a fragmented file is rejected")
+			} else {
+				r.Bad("O-MDAT", key, c.Pos(bo.Pos()), "a box other than moof before the mdat of a fragmented file is not rejected outright: File.AddChild then adds the mdat to a fragment that does not exist (nil dereference)")
+			}
+		}
+		if !found {
+			r.Bad("O-MDAT", key, c.Pos(f.Pos()), "the test that the box before a fragmented file's mdat is a moof is gone")
+		}
+	}
+}
+
+// storageFromField: the slice's backing storage is (a part of) a slice loaded from a struct field whose
+// "Type.Field" name has the given prefix (follows re-slicing, phis and locals; not copies).
+func storageFromField(v ssa.Value, prefix string, depth int) bool {
+	if depth > 8 {
+		return false
+	}
+	switch x := v.(type) {
+	case *ssa.Slice:
+		return storageFromField(x.X, prefix, depth+1)
+	case *ssa.Phi:
+		for _, e := range x.Edges {
+			if storageFromField(e, prefix, depth+1) {
+				return true
+			}
+		}
+	case *ssa.UnOp:
+		if x.Op != token.MUL {
+			return false
+		}
+		switch a := x.X.(type) {
+		case *ssa.FieldAddr:
+			if fv := fieldVar(a.X.Type(), a.Field); fv != nil && strings.HasPrefix(typeName(a.X.Type())+"."+fv.Name(), prefix) {
+				return true
+			}
+		case *ssa.Alloc:
+			for _, ref := range *a.Referrers() {
+				if st, ok := ref.(*ssa.Store); ok && st.Addr == ssa.Value(a) && storageFromField(st.Val, prefix, depth+1) {
+					return true
+				}
+			}
+		}
+	case *ssa.ChangeType:
+		return storageFromField(x.X, prefix, depth+1)
+	}
+	return false
 }
